@@ -3,7 +3,8 @@ CONSTANTS
   F = {"b", "c"}
   MaxRec = 2
   MaxEp = 1
-  FetchMax = 1
+  FetchMax = 3
+  WideEvery = 2
   SlowTimeouts = TRUE
   ZombieSteals = FALSE
   MaxTick = 0
